@@ -19,7 +19,10 @@ EXTENDS EventTriggerProps, Json, SequencesExt
 
 CONSTANTS
     MaxBlocks, MaxNum, MaxLeaves, MaxEntries, MaxPerBlock, NTrig, ExpOffsets,
-    D, MaxR, Start0, Fetch, AllowKnown, Emit
+    D, MaxR, Start0, Fetch, AllowKnown, Emit,
+    Faults    \* may a Sync call of keyper A fail (RPC error, failed transaction)?  Code-shaped: the
+              \* error is returned, the transactions committed so far stay, the rest is not done,
+              \* the next call resumes after the recorded position
 
 TrigSeq == <<"1", "2", "3">>
 UseTrigs == {TrigSeq[i] : i \in 1..NTrig}
@@ -30,7 +33,8 @@ VARIABLES blk, canon, a, b, cutsA, cutsB, okA, okB, seen, tag, last, hist
 vars == <<blk, canon, a, b, cutsA, cutsB, okA, okB, seen, tag, last, hist>>
 
 NoSt == TSt(NoRow, {}, {})
-H(op, x, evs, exp) == [op |-> op, a |-> x, evs |-> evs, exp |-> exp, t |-> <<>>]
+H(op, x, evs, exp) == [op |-> op, a |-> x, evs |-> evs, exp |-> exp, t |-> <<>>, cut |-> -1,
+                       post |-> [synced |-> NoRow, regs |-> <<>>, fired |-> <<>>]]
 
 Leaves(t) == {x \in DOMAIN t : \A y \in DOMAIN t : t[y].par # x}
 NumEntries(t) == LET RECURSIVE Sum(_) Sum(i) == IF i = 0 THEN 0 ELSE Cardinality(t[i].evs) + Sum(i - 1) IN Sum(Len(t))
@@ -107,19 +111,24 @@ Switch(x) ==
     /\ tag' = <<>>
     /\ UNCHANGED <<a, cutsA, okA, seen>>
 
-SyncA ==
+(* cut = how many of the call's transactions are committed before it fails (Len(full) = no failure) *)
+SyncA(cut) ==
     /\ blk' = blk /\ canon' = canon
     /\ DepthOK(a, canon) = TRUE
-    /\ LET seq == TRun(cfgA, blk, canon, a)
-           chk == CallCheck(<<a>> \o seq, cutsA)
-       IN /\ a' = TFinal(a, seq)
+    /\ LET full == TRun(cfgA, blk, canon, a)
+           seq  == SubSeq(full, 1, cut)
+           chk  == CallCheck(<<a>> \o seq, cutsA)
+       IN /\ cut = Len(full) \/ (Faults /\ cut >= 1 /\ cut < Len(full))
+          /\ a' = TFinal(a, seq)
           /\ cutsA' = chk.cuts
           /\ okA' = (chk.fail = {})
           /\ seen' = (seen \/ chk.known)
-          (* the code path of this call is part of the VIEW: rollback or not, 0 / 1 / several ranges, D6 hit *)
+          (* the code path of this call is part of the VIEW: rollback or not, 0 / 1 / several ranges,
+             D6 hit, failed *)
           /\ tag' = << Len(seq) > 0 /\ seq[1].synced.hash = Empty,
-                       IF Len(seq) > 2 THEN 2 ELSE Len(seq), chk.known >>
-    /\ last' = [H("sync", 0, <<>>, 0) EXCEPT !.t = tag']
+                       IF Len(seq) > 2 THEN 2 ELSE Len(seq), chk.known, cut < Len(full) >>
+          /\ last' = [H("sync", 0, <<>>, 0) EXCEPT !.t = tag', !.cut = IF cut = Len(full) THEN -1 ELSE cut,
+                         !.post = [synced |-> a'.synced, regs |-> SetToSeq(a'.regs), fired |-> SetToSeq(a'.fired)]]
     /\ hist' = Append(hist, last')
     /\ UNCHANGED <<b, cutsB, okB>>
 
@@ -129,7 +138,7 @@ Next ==
     \/ \E p \in DOMAIN blk, evs \in {e \in SUBSET Tokens : Cardinality(e) <= MaxPerBlock} :
           \E exp \in ExpChoices(p) : Mine(p, evs, exp)
     \/ \E x \in DOMAIN blk : Switch(x)
-    \/ SyncA
+    \/ \E cut \in 0..(MaxNum + 1) : SyncA(cut)
 
 Spec == Init /\ [][Next]_vars
 
